@@ -23,7 +23,7 @@ from engines import searchlib
 
 PROPS = ['C15']
 
-EVO_KINDS = ('regevo', 'hill_climb', 'nsga2', 'neat')
+EVO_KINDS = ('regevo', 'hill_climb', 'nsga2', 'neat', 'evo_custom', 'evo_sweep_init')
 DETERMINISTIC_KINDS = ('sweeping', 'random', 'dedup_random', 'dedup_sweeping',
                        'dedup_scripted', 'dedup_scripted_fb')
 
@@ -59,6 +59,24 @@ class Scripted(pg.DNAGenerator):
 
 
 def build_algo(d, spec_desc):
+    if d['kind'] == 'evo_custom':
+        from engines import c14
+        return pg.evolution.Evolution(
+            c14.build(d['repro']),
+            population_init=(pg.geno.Random(seed=d['seed']), d['population_size']),
+            population_update=pg.evolution.selectors.Last(d['population_size'] + 1))
+    if d['kind'] == 'evo_sweep_init':
+        # the initial population is whatever the initializer yields until it stops
+        return pg.evolution.Evolution(
+            pg.evolution.selectors.Top(1) >> pg.evolution.mutators.Uniform(seed=d['seed']),
+            population_init=pg.geno.Sweeping(),
+            population_update=pg.evolution.selectors.Top(d['population_size']))
+    if d['kind'] == 'dedup_hill_climb':
+        inner = dict(d, kind='hill_climb')
+        return pg.geno.Deduping(
+            searchlib.build_algo(inner), max_duplicates=d['max_duplicates'],
+            auto_reward_fn=searchlib._avg if d.get('auto_reward') else None,
+            max_proposal_attempts=d.get('max_attempts', 100))
     if d['kind'] in ('dedup_scripted', 'dedup_scripted_fb'):
         inner = Scripted(numbers=d['numbers'],
                          wants_feedback=d['kind'].endswith('_fb'))
@@ -77,13 +95,24 @@ def gen_case(streams: Streams, tier: str) -> dict:
     cfg = streams.get('config')
     kinds = ['sweeping', 'random', 'dedup_random', 'dedup_sweeping',
              'dedup_scripted', 'dedup_scripted_fb',
-             'regevo', 'regevo', 'hill_climb', 'nsga2', 'neat', 'dedup_regevo']
+             'regevo', 'regevo', 'hill_climb', 'nsga2', 'neat', 'dedup_regevo',
+             'evo_custom', 'dedup_hill_climb']
     kind = cfg.choice(kinds)
-    algo = searchlib.gen_algo(cfg, [kind if not kind.startswith('dedup_scripted')
+    base_kind = {'evo_custom': 'regevo', 'evo_sweep_init': 'regevo',
+                 'dedup_hill_climb': 'dedup_regevo'}.get(kind, kind)
+    algo = searchlib.gen_algo(cfg, [base_kind if not kind.startswith('dedup_scripted')
                                     else 'dedup_random'])
+    if kind == 'dedup_hill_climb':
+        algo['batch_size'] = cfg.randint(1, 3)
+        algo['init_population_size'] = cfg.randint(1, 3)
+    if kind == 'evo_custom':
+        from engines import c14
+        ex = streams.get('expr')
+        algo['repro'] = {'c': '>>', 'a': c14.gen_expr(ex, 1, 'sel'),
+                         'b': c14.gen_leaf(ex, ('mut',), allow_swap=True)}
     algo['kind'] = kind
     space = searchlib.gen_space(cfg, max_points=3,
-                                allow_float=('sweeping' not in kind
+                                allow_float=('sweeping' not in kind and 'sweep' not in kind
                                              and 'scripted' not in kind))
     if kind.startswith('dedup_scripted'):
         # a short cyclic script of valid DNAs with repeats, drawn with a
@@ -271,7 +300,16 @@ def run_case(case: dict, prop='C15'):
         R.setup(spec_r)
         hist = store.history(R.dna_spec, kk, ww, mode)
         try:
-            R.recover(hist)
+            split = case.get('split')
+            if split is not None and len(hist) >= 2:
+                # "recover could be called multiple times if there are multiple
+                # sources of history"
+                j = 1 + split % (len(hist) - 1)
+                R.recover(hist[:j])
+                R.recover(hist[j:])
+                probes['split_recover'] = probes.get('split_recover', 0) + 1
+            else:
+                R.recover(hist)
         except Exception as e:  # pylint: disable=broad-except
             bad('C15.recover-raises', type(e).__name__,
                 f'recover() raised {type(e).__name__}: {e}', k, w, mode)
